@@ -89,7 +89,7 @@ func wallClock() (int64, int64) { n := time.Now().UnixNano(); return n - 120e9, 
 func c10(c *wk.Ctx) {
 	idx := 0
 	// (A) the C09 scenario family, C10 oracle
-	for k := 0; k < c.Pick(20, 600); k++ {
+	for k := 0; k < c.Pick(40, 1000); k++ {
 		if c.Mine(idx) {
 			r := c.Rand(idx)
 			sc := randScenario(r, !c.Quick())
@@ -111,7 +111,7 @@ func c10(c *wk.Ctx) {
 		idx++
 	}
 	// (B) burst: N goroutines, held right after they obtained their msg_id, released in reverse order
-	for k := 0; k < c.Pick(12, 300); k++ {
+	for k := 0; k < c.Pick(24, 600); k++ {
 		if c.Mine(idx) {
 			r := c.Rand(idx)
 			n := 2 + r.Intn(c.Pick(8, 31))
